@@ -15,8 +15,26 @@ var allChecks []*Check
 // register is called from the per-property reg_cXX.go files.
 func register(c *Check) { allChecks = append(allChecks, c) }
 
+// apiProps: the properties whose statement includes what the exported wrappers and the Builder's option wiring
+// do; each of them gets the public-API scenario (harness/root/api_test.go) with its own clauses selected.
+var apiProps = map[string]bool{"C01": true, "C05": true, "C06": true, "C10": true, "C11": true, "C13": true, "C14": true, "C16": true}
+
+var apiAdded = false
+
 func registry() []*Check {
 	sort.Slice(allChecks, func(i, j int) bool { return allChecks[i].ID < allChecks[j].ID })
+	if !apiAdded {
+		apiAdded = true
+		for _, c := range allChecks {
+			if !apiProps[c.ID] {
+				continue
+			}
+			c.Quick = append(c.Quick, Scenario{Name: c.ID + "/api-wiring", Build: plain, Pkg: "root", Test: "TestVerif_API", Params: "prop=" + c.ID + ",depth=3", Shards: 4, BudgetS: 60})
+			c.Thorough = append(c.Thorough, Scenario{Name: c.ID + "/api-wiring", Build: plain, Pkg: "root", Test: "TestVerif_API", Params: "prop=" + c.ID + ",depth=5", Shards: 16, BudgetS: 600})
+			c.Technique += "; plus exhaustive enumeration of every exported-call sequence (to depth 3, thorough 5, on two keys) on every cache kind and option combination the exported Builder produces, against a map (public-API layer: wrappers and option wiring)"
+			c.LevelNote += "; the public-API scenario runs un-instrumented with real goroutines, capacity 100 (no eviction, no expiry), and compares asynchronous effects only after Wait"
+		}
+	}
 	return allChecks
 }
 
